@@ -130,6 +130,12 @@ def run(ctx, rep):
         rep.ob((not can_be_dirty) or restored.get(comp_name), 'R17.2', 'compiler::Compiler::compile_ast', 'Err path restores ' + comp_name,
                '%d error exits of the compiler leave `%s` modified; compile_ast must reset it before returning Err (found reset: %s)' % (
                    dirty.get(dirty_key, 0) if comp_name != 'symbols' else dirty['scopes'] + dirty['contexts'], comp_name, restored.get(comp_name)), ca.loc())
+    for v_ in R['violations']:
+        if v_['oblig'] == 'R17.2':
+            rep.bad('R17.2', 'compiler::Compiler::' + v_['method'], v_['construct'], v_['text'], ca.loc())
+    rep.count('top_level_error_exits', len(R.get('toperrs', [])))
+    if not [v_ for v_ in R['violations'] if v_['oblig'] == 'R17.2']:
+        rep.good('R17.2', 'compiler::Compiler::compile_ast', 'error exits (CSA)', '%d error exits of the top-level driver examined: scopes, contexts, loop contexts, code buffer and peephole register are all back to their initial state' % len(R.get('toperrs', [])), ca.loc())
     # ---- R17.3 ---------------------------------------------------------------------------------
     v = vmxmod.vmx(ctx)
     gg = v['arms'].get('GetGlobal')
